@@ -89,6 +89,19 @@ func bundledEngine(kind string, seed int64, g *gate) (*engine.Engine, []uci.Opti
 		s := search.AlphaBeta{Explore: bernstein.PlausibleMoveTable{Limit: 7}.Explore, Eval: search.Leaf{Eval: gateEval{bernstein.Eval{Factor: 8}, g}}}
 		return engine.New(ctx, "BERNSTEIN", "x", s, engine.WithOptions(engine.Options{Depth: 4, Noise: 10}), engine.WithZobrist(seed)),
 			[]uci.Option{uci.UseBook(bernstein.NewBook(), seed)}
+	case "bookplain":
+		// the plain engine with a book of its own whose lines castle (the bundled books do not): a book move is played unchecked,
+		// so the book must be looked up by the whole position - castling rights and e.p. square included
+		bk, err := engine.NewBook([]engine.Line{
+			{"e2e4", "e7e5", "g1f3", "b8c6", "f1b5", "a7a6", "b5a4", "g8f6", "e1g1"},
+			{"d2d4", "d7d5", "c1f4", "c8f5", "b1c3", "b8c6", "d1d2", "d8d7", "e1c1", "e8c8"},
+			{"e2e4", "c7c5", "e4e5", "d7d5", "e5d6"},
+		})
+		if err != nil {
+			panic(err)
+		}
+		s := search.AlphaBeta{Eval: search.Leaf{Eval: gateEval{eval.Material{}, g}}}
+		return engine.New(ctx, "bookplain", "x", s, engine.WithOptions(engine.Options{Depth: 1}), engine.WithZobrist(seed)), []uci.Option{uci.UseBook(bk, seed)}
 	case "morlock":
 		s := search.AlphaBeta{Eval: search.Leaf{Eval: gateEval{eval.Material{}, g}}}
 		return engine.New(ctx, "morlock", "x", s, engine.WithOptions(engine.Options{Hash: 1}), engine.WithTable(search.NewMinDepthTranspositionTable(1)), engine.WithZobrist(seed)), nil
@@ -113,7 +126,14 @@ type uciSession struct {
 
 func newUciSession(kind string, seed int64) *uciSession {
 	g := &gate{}
-	e, opts := bundledEngine(kind, seed, g)
+	used := strings.HasSuffix(kind, "+used")
+	e, opts := bundledEngine(strings.TrimSuffix(kind, "+used"), seed, g)
+	if used {
+		// the driver is attached to an engine that has been used before (a second session on one engine, an engine set up
+		// through its Go API): whatever the engine holds, the first position command sets the game up from scratch
+		_ = e.Move(context.Background(), "e2e4")
+		_ = e.Move(context.Background(), "e7e5")
+	}
 	s := &uciSession{e: e, in: make(chan string, 64), g: g}
 	d, out := uci.NewDriver(context.Background(), e, s.in, opts...)
 	s.d = d
